@@ -440,6 +440,10 @@ impl Spell {
     pub fn plain() -> Spell {
         Spell { rng: None, upper_prob: 0, radix_mix: false, ws_mix: false, syn_mix: false }
     }
+    /// every keyword, mnemonic and register in upper case; nothing else varies
+    pub fn upper() -> Spell {
+        Spell { rng: Some(Rng::new(1)), upper_prob: 100, radix_mix: false, ws_mix: false, syn_mix: false }
+    }
     pub fn random(rng: Rng) -> Spell {
         Spell { rng: Some(rng), upper_prob: 50, radix_mix: true, ws_mix: true, syn_mix: false }
     }
